@@ -188,7 +188,9 @@ func (e *Engine) callDynamic(fr *Frame, instr ssa.Instruction, fnval *Term, call
 // for the heap field it was loaded from.
 func (e *Engine) callUnknownFunc(fr *Frame, instr ssa.Instruction, fnval *Term, call *ssa.CallCommon, args []*Term, resT types.Type, st *State, pc *Term, label string) (*Term, *Term) {
 	origin := "func"
-	if fnval.Op == "select" && fnval.Args[0].Op == "sym" {
+	if fnval.Op == "sym" && strings.HasPrefix(fnval.SVal, "p:") && e.topFn != nil {
+		origin = "P:" + shortFn(e.topFn) + "." + strings.TrimPrefix(fnval.SVal, "p:")
+	} else if fnval.Op == "select" && fnval.Args[0].Op == "sym" {
 		origin = strings.TrimPrefix(fnval.Args[0].SVal, "0:")
 	} else if fnval.Op == "select" {
 		// look through stores
@@ -374,6 +376,9 @@ func (e *Engine) callFn(fr *Frame, instr ssa.Instruction, fn *ssa.Function, args
 			ctx.st = rd.clone()
 		}
 		r := m(ctx)
+		if r != nil && !(fr != nil && fr.clause) {
+			e.callHist["last:"+name] = r
+		}
 		return r, ctx.pcOut
 	}
 	if c := e.contracts[name]; c != nil && c.Pure && fn != e.topFn {
@@ -404,6 +409,9 @@ func (e *Engine) callFn(fr *Frame, instr ssa.Instruction, fn *ssa.Function, args
 		}
 		r, out, po := e.execFunction(fn, args, bindings, st, pc, fr, path, old, false)
 		st.comps = out.comps
+		if r != nil && !(fr != nil && fr.clause) {
+			e.callHist["last:"+name] = r
+		}
 		return r, po
 	}
 	e.unmodelled[name]++
@@ -647,9 +655,11 @@ func (e *Engine) modularCall(c *CallCtx, ct *Contract) *Term {
 		resArgs = []*Term{res}
 	}
 	subst := map[int]*Term{}
+	var ensuredTerms []*Term
 	for _, cl := range ct.Ensures {
 		g := e.evalClause(c.fr, cl, c.args, resArgs, c.st, pre, c.pc)
 		e.assume(c.pc, g)
+		ensuredTerms = append(ensuredTerms, g)
 		// a postcondition of the form  result == <term>  determines the result:
 		// use the term itself (keeps object identities syntactic)
 		for _, cj := range conj(g) {
@@ -671,6 +681,53 @@ func (e *Engine) modularCall(c *CallCtx, ct *Contract) *Term {
 					} else if cj.Args[1] == r && strings.HasPrefix(cj.Args[0].SVal, "p:") {
 						subst[r.id] = cj.Args[0]
 					}
+				}
+			}
+		}
+	}
+	// a postcondition  [cond ==>] ghostGlobal == <term>  determines the havocked
+	// ghost global on the paths where cond holds: use the term itself
+	for name := range e.compSorts {
+		if !strings.HasPrefix(name, "G:") {
+			continue
+		}
+		x := e.comp(c.st, name)
+		if x.Op != "sym" || x == e.comp(pre, name) {
+			continue
+		}
+		for _, g := range ensuredTerms {
+			for _, cj := range conj(g) {
+				var cond, val *Term
+				pick := func(eq *Term) *Term {
+					if eq.Op != "=" {
+						return nil
+					}
+					if eq.Args[0] == x && !containsTerm(eq.Args[1], x) {
+						return eq.Args[1]
+					}
+					if eq.Args[1] == x && !containsTerm(eq.Args[0], x) {
+						return eq.Args[0]
+					}
+					return nil
+				}
+				if v := pick(cj); v != nil {
+					cond, val = True, v
+				} else if cj.Op == "or" {
+					for i, a := range cj.Args {
+						if v := pick(a); v != nil {
+							var others []*Term
+							for j, b := range cj.Args {
+								if j != i {
+									others = append(others, Not(b))
+								}
+							}
+							cond, val = And(others...), v
+							break
+						}
+					}
+				}
+				if val != nil && !containsTerm(cond, x) {
+					e.setComp(c.st, name, Ite(cond, val, x))
 				}
 			}
 		}
@@ -714,6 +771,37 @@ func (e *Engine) pureCall(c *CallCtx, ct *Contract) *Term {
 		panic(outsideSubset("pure function with several results: " + c.name))
 	}
 	res := App(DeclUF("fn:"+shortFn(c.fn), rs, ss...), c.args...)
+	// constant arguments: the body is evaluated (the function is side-effect
+	// free by its contract); a constant result replaces the abstraction
+	allConst := len(c.args) > 0 && c.fn.Blocks != nil
+	for _, a := range c.args {
+		if !a.IsConst() {
+			allConst = false
+		}
+	}
+	if allConst && e.pureDepth < 3 {
+		if v, ok := e.pureConst[res.id]; ok {
+			if v != nil {
+				return v
+			}
+		} else {
+			e.pureConst[res.id] = nil
+			func() {
+				defer func() { recover() }()
+				e.pureDepth++
+				defer func() { e.pureDepth-- }()
+				saveObls := len(e.obls)
+				r, _, _ := e.execFunction(c.fn, c.args, nil, c.st.clone(), True, c.fr, "", nil, true)
+				e.obls = e.obls[:saveObls]
+				if r != nil && r.IsConst() {
+					e.pureConst[res.id] = r
+				}
+			}()
+			if v := e.pureConst[res.id]; v != nil {
+				return v
+			}
+		}
+	}
 	if !e.pureSeen[res.id] {
 		e.pureSeen[res.id] = true
 		for _, cl := range ct.Requires {
